@@ -261,15 +261,6 @@ theorem implCorr_valid {α} [CommSemiring α] (pad : Bool) (ns ms Ns : List Nat)
 
 /-! ## Grid (signed-permutation) rotations of the template, 2-D and 3-D -/
 
-/-- valid grid rotation of a 3-D shape: a permutation of the axes under which the shape is invariant -/
-def GridOk3 (R : GridRot) (a b c : Nat) : Prop :=
-  (∃ f0 f1 f2, R.flip = [f0, f1, f2]) ∧
-  ((R.perm = [0,1,2]) ∨ (R.perm = [0,2,1] ∧ b = c) ∨ (R.perm = [1,0,2] ∧ a = b) ∨
-   (R.perm = [1,2,0] ∧ a = b ∧ b = c) ∨ (R.perm = [2,0,1] ∧ a = b ∧ b = c) ∨ (R.perm = [2,1,0] ∧ a = c))
-
-def GridOk2 (R : GridRot) (a b : Nat) : Prop :=
-  (∃ f0 f1, R.flip = [f0, f1]) ∧ ((R.perm = [0,1]) ∨ (R.perm = [1,0] ∧ a = b))
-
 /-- reversal (point reflection about the geometric centre) commutes with every grid rotation -/
 theorem pull_rev_comm3 (R : GridRot) (a b c : Nat) (h : GridOk3 R a b c) (x0 x1 x2 : Int) :
     revIdx [a,b,c] (R.pull [a,b,c] [x0,x1,x2]) = R.pull [a,b,c] (revIdx [a,b,c] [x0,x1,x2]) := by
